@@ -187,10 +187,22 @@ PARSER_FAMILIES = {
     "enum_values": lambda n: "enum E { " + "a = 1, " * n + "z };",
     "string_concat": lambda n: "const char* s = " + "\"a\" " * n + ";",
     "requires_chain": lambda n: "template <typename T> requires " + "A<T> && " * n + "B<T> void f();",
+    # nested template arguments: types, expressions that start like a type (both readings are tried), function types
+    "targ_expr_nest": lambda n: "A<" + "B<" * n + "int" + ">::value + 1" * n + "> x;",
+    "targ_fn_nest": lambda n: "F<void(" * n + "int" + ")>" * n + " v;",
+    "targ_paren_nest": lambda n: "A<" + "(B<" * n + "1" + ">::v)" * n + "> x;",
+    "targ_list_nest": lambda n: "A<" + "B<int, " * n + "char" + ", 3>" * n + "> x;",
+    "targ_ptr_nest": lambda n: "A<" + "B<" * n + "int" + ">*" * n + "> x;",
+    "default_arg_nest": lambda n: "void f(int a = " + "g(" * n + "1" + ")" * n + ");",
+    "decltype_nest": lambda n: "decltype(" * n + "x" + ")" * n + " v;",
+    "init_brace_nest": lambda n: "int x" + "{" * n + "}" * n + ";",
+    "template_template_nest": lambda n: "template <" + "template <" * n + "typename" + "> class" * n + " T> struct S;",
+    "fn_returning_fnptr": lambda n: "int " + "(*" * n + "f(int)" + ")(int)" * n + ";",
+    "using_alias_nest": lambda n: "using T = " + "A<" * n + "int" + "[3]>" * n + ";",
 }
 
 
-class Timeout(Exception):
+class Timeout(BaseException):      # not an Exception: parse() turns every Exception into a CxxParseError
     pass
 
 
